@@ -244,6 +244,27 @@ func (in *Interp) builtin(fr *frame, name string, c *ast.CallExpr) Val {
 		}
 		return s
 	case "copy":
+		// copy into a made buffer that is being filled positionally
+		dst, _ := in.eval(fr, c.Args[0]).(*SliceV)
+		src := in.eval(fr, c.Args[1])
+		if dst != nil {
+			if dst.parent == nil && dst.made {
+				dst = &SliceV{parent: dst, viewOff: cI(0)}
+			}
+			if dst.parent != nil && dst.parent.made {
+				buf := dst.parent
+				if buf.bytesOf == nil {
+					buf.bytesOf = in.newStream(true, "buf")
+					buf.wpos = cI(0)
+				}
+				ln := in.lenOf(src)
+				if ln != nil && dst.viewOff.String() == buf.wpos.String() {
+					buf.bytesOf.T.add(in, Item{Kind: "bytes", W: in.mkBin("*", cI(8), ln, typInfo{64, true}), V: src, Pos: c.Pos()})
+					buf.wpos = in.mkBin("+", buf.wpos, in.mkBin("*", ln, in.loopMul(0), typInfo{64, true}), typInfo{64, true})
+					return ln
+				}
+			}
+		}
 		return Unknown{"copy"}
 	case "panic":
 		fr.done = true
@@ -606,27 +627,35 @@ func (in *Interp) model(fr *frame, pkg, typ, name string, fn *types.Func, recv V
 				st.T.add(in, Item{Kind: "child", W: in.mkBin("*", cI(8), sz, typInfo{64, true}), V: el, Pos: c.Pos()})
 				return &TupleV{[]Val{el, ErrV{}}}, true
 			}
-		case "EncodeHeader", "EncodeHeaderSW":
-			if st, ok := args[1].(*StreamV); ok {
+		case "EncodeHeader", "EncodeHeaderSW", "EncodeHeaderWithSize", "EncodeHeaderWithSizeSW":
+			// the header writer is interpreted on a scratch stream: its width and the size value it writes are
+			// what the code does, not what its arguments promise
+			last := len(args) - 1
+			if st, ok := args[last].(*StreamV); ok && !in.inHeader {
+				scratch := in.newStream(true, "hdr")
+				nargs := append([]Val{}, args...)
+				nargs[last] = scratch
+				in.inHeader = true
+				in.callFunc(fr, fn, recv, nargs, c)
+				in.inHeader = false
 				var size, typ Val
-				if o, ok := args[0].(*Obj); ok {
-					size = in.callMethod(fr, o, "Size", nil, c)
-					typ = in.callMethod(fr, o, "Type", nil, c)
+				for _, it := range scratch.T.Items {
+					if it.Kind == "int" && size == nil {
+						size = it.V
+					}
+					if it.Kind == "bytes" && typ == nil {
+						typ = it.V
+					}
 				}
-				st.T.add(in, Item{Kind: "hdr", W: cI(64), V: &TupleV{[]Val{size, typ, args[0]}}, Pos: c.Pos()})
-				return ErrV{}, true
-			}
-		case "EncodeHeaderWithSize", "EncodeHeaderWithSizeSW":
-			if st, ok := args[3].(*StreamV); ok {
-				large, ok := in.decide(args[2], "largeSize")
-				if !ok {
-					bail("largeSize flag undecided")
+				if len(scratch.T.Items) >= 3 {
+					// large size: 1, type, 64-bit size
+					size = scratch.T.Items[2].V
 				}
-				w := int64(64)
-				if large {
-					w = 128
+				var box Val
+				if name == "EncodeHeader" || name == "EncodeHeaderSW" {
+					box = args[0]
 				}
-				st.T.add(in, Item{Kind: "hdr", W: cI(w), V: &TupleV{[]Val{args[1], args[0], nil}}, Pos: c.Pos()})
+				st.T.add(in, Item{Kind: "hdr", W: scratch.T.BitPos, V: &TupleV{[]Val{size, typ, box}}, Pos: c.Pos()})
 				return ErrV{}, true
 			}
 		case "newInfoDumper":
@@ -702,6 +731,11 @@ func (in *Interp) binaryModel(fr *frame, typ, name string, args []Val, c *ast.Ca
 	case "PutUint16", "PutUint32", "PutUint64":
 		// positional big-endian write into a made buffer: must be sequential; the buffer becomes a writer
 		w := map[string]int64{"PutUint16": 16, "PutUint32": 32, "PutUint64": 64}[name]
+		if v, ok := args[0].(*SliceV); ok && v.parent == nil && v.made {
+			// the buffer itself: offset 0
+			v = &SliceV{parent: v, viewOff: cI(0)}
+			args[0] = v
+		}
 		if v, ok := args[0].(*SliceV); ok && v.parent != nil && v.parent.made {
 			buf := v.parent
 			if buf.bytesOf == nil {
